@@ -8,6 +8,7 @@ from __future__ import annotations
 import ast
 import concurrent.futures as cf
 import fcntl
+import glob
 import hashlib
 import json
 import os
@@ -298,9 +299,13 @@ def run_cases(pid, header, cases, shard=250, timeout=900, workers=16, rtype="big
 
     `cases` is a list of Coq expressions; returns a list of python int lists in order.
     Raises RuntimeError if coqc fails (a harness/model error, never silently ignored)."""
-    work = os.path.join(WORKROOT, pid, "cases")
+    # one directory per process: two runs of the same check at the same time must not see each other's files
+    work = os.path.join(WORKROOT, pid, f"cases_{os.getpid()}")
     shutil.rmtree(work, ignore_errors=True)
     os.makedirs(work, exist_ok=True)
+    for old in glob.glob(os.path.join(WORKROOT, pid, "cases*")):       # left behind by earlier (finished) runs
+        if old != work and time.time() - os.path.getmtime(old) > 6 * 3600:
+            shutil.rmtree(old, ignore_errors=True)
     files = []
     for k in range(0, len(cases), shard):
         fn = os.path.join(work, f"cases_{pid}_{k // shard}.v")
@@ -329,6 +334,7 @@ def run_cases(pid, header, cases, shard=250, timeout=900, workers=16, rtype="big
             results.extend(vals[0])
     if len(results) != len(cases):
         raise RuntimeError(f"case count mismatch {len(results)} vs {len(cases)}")
+    shutil.rmtree(work, ignore_errors=True)
     return results
 
 
